@@ -52,7 +52,7 @@ class ShapelyPolygon(Domain):
             inside[i] = self.polygon.contains(point)
         return inside
 
-    def bounding_box(self, device="cpu"):
+    def bounding_box(self, params=Points.empty(), device="cpu"):
         bounds = torch.tensor(self.polygon.bounds, device=device)
         bounds[[1, 2]] = bounds[[2, 1]]
         return bounds
